@@ -193,7 +193,8 @@ Section ProofModel.
       match init_result qs idxs [] with
       | None => Err
       | Some res0 =>
-        let sorted := sort_idx (filter (fun i => negb (i =? 0)) idxs) in
+        (* a repeated index (with the same hash) is put on the work list once *)
+        let sorted := sort_idx (nodup N.eq_dec (filter (fun i => negb (i =? 0)) idxs)) in
         cpn (loop_fuel (length idxs) (get_height size)) size (get_height size) sorted res0 [] sibs
       end.
 
